@@ -165,6 +165,8 @@ def check(ctx):
   ctx.rule('C12.R2', 'shared with C12: a request deferred until the balancer is open is dispatched only if its deadline has not fired by then (its drained stack would never release the member: '
                      'a phantom unit of load that skews every later choice)')
   _c12.r2(ctx)
+  ctx.rule('C05.R3', 'shared with C05: an endpoint moves between the idle set and the heap as a pair of operations (an endpoint left in the idle set after it was activated gets a second, third ... node: its outstanding requests are split over several counters and it looks less loaded than it is)')
+  _c05.r3(ctx)
   ctx.rule('C05.R2', 'shared with C05: an endpoint that is already a member is never added again (a second node for it splits its load over two heap entries: the member looks less loaded than it is)')
   _c05.r2(ctx)
   from . import c04
@@ -532,9 +534,11 @@ def r4(ctx):
       seen['less'] = v == 'True'
     else:
       seen['equal'] = v in ('self.index<%s.index' % o, '%s.index>self.index' % o)
-  if not seen:
-    v = U(lt.node.body[-1]).replace(' ', '')
-    seen = {'tuple': v in ('return(self.load,self.index)<(%s.load,%s.index)' % (o, o),)}
+  body_ = [x for x in lt.node.body if not (isinstance(x, ast.Expr) and isinstance(x.value, ast.Constant))]
+  if len(body_) == 1 and isinstance(body_[0], ast.Return):
+    v = U(body_[0]).replace(' ', '')
+    if v in ('return(self.load,self.index)<(%s.load,%s.index)' % (o, o), 'return(%s.load,%s.index)>(self.load,self.index)' % (o, o)):
+      seen = {'tuple': True}       # the same order, spelled as a tuple comparison
   ctx.ob('C03.R4', lt, 'Node order is lexicographic on (load, index)', bool(seen) and all(seen.values()) and (len(seen) == 3 or 'tuple' in seen), 'order cases: %s' % seen,
          'the heap is ordered by load first; comparing index first (or reversing a branch) makes the root an arbitrary node')
 
